@@ -102,6 +102,34 @@ def falcun_lib(ctx, mode):
         return res
     L.array_binop = array_binop
 
+    base_sum = L.functions["np.sum"]
+
+    def _sum(E, st, args, kw, node):
+        """np.sum of the relevance vector: the library contract (sum of non-negative numbers bounds every entry, 0 iff all are 0) plus its ground
+        instance at the candidate that is known to be still selectable (gives the solver the term it needs)"""
+        r = base_sum(E, st, args, kw, node)
+        a = as_array(args[0], st) if args and isinstance(args[0], Ref) else None
+        j0 = ctx.get("j0")
+        if a is not None and a.ndim == 1 and a.kind == "f" and j0 is not None and not kw:
+            jq = z3.Int("sm_j")
+            en, ev = to_real(a.sel(jq))
+            n = to_int(a.shape[0])
+            premise = z3.ForAll([jq], z3.Implies(z3.And(0 <= jq, jq < n, z3.Not(en)), ev >= 0))
+            e0n, e0v = to_real(a.sel(j0))
+            rn, rv = to_real(r)
+            st.assume(z3.Implies(z3.And(premise, 0 <= j0, j0 < n, z3.Not(e0n)), e0v <= rv))
+        return r
+    L.functions["np.sum"] = _sum
+
+    base_arr_method = L.arr_method
+
+    def arr_method(E, ref, d, name, args, kwargs, st, node):
+        if name in ("min", "max") and not args and not kwargs:
+            E.abstracted.add("A-score: dist_cand." + name + "() is a number")
+            return fresh("dist_" + name, R)
+        return base_arr_method(E, ref, d, name, args, kwargs, st, node)
+    L.arr_method = arr_method
+
     base_rng = L.rng_method
 
     def rng_method(E, ref, d, name, args, kwargs, st):
@@ -158,7 +186,7 @@ def unit_falcun(mode):
             return [
                 ("shapes", z3.And(to_int(U.shape[0]) == bsv, to_int(U.shape[1]) == c, to_int(ql.n) == k)),
                 ("ghost_def", z3.ForAll([t], z3.Implies(z3.And(1 <= t, t <= k), GHf(t) == z3.Store(GHf(t - 1), q_at(s, t - 1), False)))),
-                ("ghost_in_range", z3.ForAll([t, j], z3.Implies(z3.And(0 <= t, t <= k, GHf(t)[j]), inr(j)))),
+                ("ghost_in_range", z3.ForAll([j], z3.Implies(GHf(k)[j], inr(j)))),
                 ("picks_valid", z3.ForAll([t], z3.Implies(z3.And(0 <= t, t < k), z3.And(inr(q_at(s, t)), GHf(t)[q_at(s, t)])))),
                 ("picks_stay_masked", z3.ForAll([t, t2], z3.Implies(z3.And(0 <= t, t < t2, t2 <= k), z3.Not(GHf(t2)[q_at(s, t)])))),
                 ("masked_were_picked", z3.ForAll([t2, j], z3.Implies(z3.And(0 <= t2, t2 <= k, inr(j), z3.Not(GHf(t2)[j])),
@@ -171,6 +199,16 @@ def unit_falcun(mode):
         def on_iter(E, s, k):
             for f in cnt_lemma_instances(GHf(k), c):          # counting lemmas (contracts/lemmas.py, proved by induction), instantiated
                 s.assume(f)
+            # cut: some candidate is still selectable (c - k of them are); named, so that the later obligations get a concrete witness
+            jx = z3.Int("jx")
+            E.oblige("loop0.lemma.some_candidate_is_still_selectable", s, z3.Exists([jx], z3.And(inr(jx), GHf(k)[jx])), loop="loop0")
+            j0 = fresh("still_selectable", I)
+            ctx["j0"] = j0
+            s.assume(inr(j0), GHf(k)[j0])
+            ql = s.get(s.env["query_indices"])
+            tq = z3.Int("tq")
+            E.oblige("loop0.lemma.it_is_none_of_the_picks", s, z3.ForAll([tq], z3.Implies(z3.And(0 <= tq, tq < k), to_int(ql.sel(tq)) != j0)), loop="loop0")
+            s.assume(z3.ForAll([tq], z3.Implies(z3.And(0 <= tq, tq < k), to_int(ql.sel(tq)) != j0)))
 
         def end_assume(E, head, end, k):
             r = q_at(end, k)
